@@ -425,6 +425,13 @@ def build_graph(ctx, source_kwargs):
     # feedback edges (guarded by unique in the generated templates): connected after construction
     for fb in sc.get('feedback', []):
         N[fb['from']].connect(N[fb['to']])
+    if sc.get('start_leaves') and not sc.get('feedback') and not any(n['op'] == 'external' for n in sc['graph']):
+        # the usual idiom  p = source...sink(f); p.start() : start() travels upstream through every node;
+        # for nodes that are not sources it must change nothing
+        has_child = set(u for n in sc['graph'] for u in n.get('up', []))
+        for n in sc['graph']:
+            if n['id'] not in has_child:
+                N[n['id']].start()
     return N
 
 
